@@ -195,6 +195,28 @@ class InputFactory:
                         out.append({'kind': d[0], 'values': [mint(m, t) for t in d[1]]})
                 return {'Rng': out}
             return SymInput(sort, r, ex)
+        if sort == 'ObjPred':
+            # arbitrary predicate on grid objects (a *function*: equal objects, equal answers)
+            om = I.objmodel
+            P = z3.Function(I.fresh_name(hint), om.sort, z3.BoolSort())
+            from .model import Builtin
+            fn = Builtin(hint, lambda I_, a, k: P(a[0].term))
+            def ex(m):
+                # report the predicate on the finite set of flat objects
+                out = []
+                for c in om.classes:
+                    if c.name == 'Box':
+                        continue
+                    import itertools
+                    doms = []
+                    for fname, desc in om.fields[c.name]:
+                        doms.append([desc.enum_consts[n] for n in desc.enum_canon])
+                    for combo in itertools.product(*doms):
+                        t = om.ctor[c.name](*combo)
+                        if z3.is_true(mval(m, P(t))):
+                            out.append(self.objval_to_json(t))
+                return {'ObjPred': out}
+            return SymInput(sort, fn, ex)
         if sort == 'VisFn':
             return self.make_visfn(hint)
         raise Unsupported(f'input sort {sort}')
